@@ -46,6 +46,7 @@ const c07Setup = `(do
   (def lp-swap (let [a (atom 0)] (fn [n] (do (swap! a (fn [v] (+ v 1))) (lp-swap (+ n 1))))))
   (def lp-swap-upd (let [st (atom {:n 0})] (fn [k] (do (swap! st update :n (fn [n] (+ n (count @st)))) (lp-swap-upd (+ k 1))))))
   (def lp-swap-apply (let [st (atom [1 2])] (fn [k] (do (swap! st (fn [v] (apply vector (map (fn [x] (+ x (count @st))) v)))) (lp-swap-apply (+ k 1))))))
+  (def lp-n (fn [n] (if (> n 0) (lp-n (- n 1)) nil)))
   (def lp0 (fn [] (lp0)))
   (def lpx (fn [x] (lpx x)))
   (def pa (fn [x] (pb x)))
@@ -75,10 +76,13 @@ var c07Leaves = []string{"(lp 0)", "(lp-nt 0)", "(mm)", "(lp-cond 0)", "(lp-and 
 	"(let [f (future (lp-sleep 0))] (do (future-cancel f) (try @f (catch e nil)) (try @f (catch e nil)) (lp 0)))",
 	"(let [f (future (lp 0))] (do (sleep 3) (future-cancel f) (try @f (catch e nil)) (lp-sleep 0)))",
 	// an update function reached through a builtin reads the atom being swapped
-	"(lp-swap-upd 0)", "(lp-swap-apply 0)"}
+	"(lp-swap-upd 0)", "(lp-swap-apply 0)",
+	// status calls on a future that has finished, repeated, before the program goes on
+	"(let [f (future 1)] (do @f (future-cancel f) (future-cancel f) (future-done? f) (future-cancelled? f) (lp 0)))",
+	"(let [f (future (lp 0))] (do (future-cancel f) (future-cancel f) (try @f (catch e nil)) (future-cancel f) (future-done? f) (lp-sleep 0)))"}
 var c07LeafNames = []string{"tail", "nontail", "macro", "cond", "and-or", "thread", "sleep-loop", "sleep", "swap-loop", "apply", "deref-ignoring-body",
 	"tail-noargs", "tail-symbol-arg", "mutual-symbol-arg", "tail-do-atoms", "tail-let-symbol", "tail-if-symbol", "deref-shared-pending",
-	"background-env-writer", "background-env-writer-let", "cancelled-future-deref", "cancelled-future-deref2", "swap-through-builtin-selfread", "swap-selfread-in-map"}
+	"background-env-writer", "background-env-writer-let", "cancelled-future-deref", "cancelled-future-deref2", "swap-through-builtin-selfread", "swap-selfread-in-map", "status-calls-on-finished-future", "status-calls-on-cancelled-future"}
 
 // endless returns an expression that never terminates on its own.
 func (g *c07Gen) endless(depth int, allowTry bool) string {
@@ -301,6 +305,7 @@ func (c07) Run(tp *Tape, opt RunOpt) *RunOut {
 	burst := false
 	dive := false
 	nestedProbe := false
+	prefixProbe := false
 	mustTimeout := false
 	topW := []int{120, 40, 20, 20, 2, 3, 20, 20}
 	if os.Getenv("LISPSIM_C07_BURST") != "" {
@@ -375,6 +380,13 @@ func (c07) Run(tp *Tape, opt RunOpt) *RunOut {
 		g.hasTry = true
 		g.kinds = append(g.kinds, "handler-probe")
 		src = "(try " + g.endless(1, false) + " (catch e (do (trace! :probe-handler) " + strconv.Itoa(tp.Draw(LaneWork, 50)) + ")))"
+		if tp.Chance(LaneWork, 1, 3) {
+			// ... reached in tail position of the same evaluation after a prefix that uses up part of the deadline
+			// (the marker 777777777 is replaced once the deadline is known)
+			prefixProbe = true
+			g.kinds = append(g.kinds, "handler-probe-after-prefix")
+			src = []string{"(do (lp-n 777777777) " + src + ")", "(let [a (lp-n 777777777)] " + src + ")", "((fn [] (do (lp-n 777777777) " + src + ")))"}[tp.Draw(LaneWork, 3)]
+		}
 	}
 	ast := mustRead(src)
 	nodes := countNodes(ast)
@@ -413,6 +425,20 @@ func (c07) Run(tp *Tape, opt RunOpt) *RunOut {
 	}
 	if nestedProbe && steps < 2048 {
 		steps += 2048
+	}
+	if prefixProbe {
+		if steps < 2048 {
+			steps += 2048
+		}
+		// the prefix takes roughly 45% of the deadline (about 11 evaluation steps per iteration)
+		k := steps / 25
+		if cfg.StepJitter > 1 {
+			// a step then costs one to three times the base cost: the prefix takes 22%..66% of the deadline
+			k = steps / 50
+		}
+		src = strings.Replace(src, "777777777", strconv.FormatInt(k, 10), 1)
+		ast = mustRead(src)
+		w.ast = ast
 	}
 	if handlerProbe || finallyProbe != "" {
 		w.mode = "deadline"
